@@ -63,7 +63,7 @@ def generate(rng, seed, part):
         if bulk_tier(rng):
             kind = rng.choice(["h1_wide", "h3_wide"])  # thousands of bins, thousands of entries
         spec = {"kind": kind, "dtype": rng.choice([None, None, "float64", "int32", "float32"]),
-                "n": rng.choice([0, 2, 5, 9]) if not kind.endswith("wide") else rng.choice([9, 3000]), "seed": rng.randrange(1 << 30), "names": rng.random() < 0.5}
+                "n": rng.choice([0, 2, 5, 9]) if not kind.endswith("wide") else rng.choice([9, 3000]), "seed": rng.randrange(1 << 30), "names": rng.random() < 0.5, "keep_missed": rng.random() < 0.8}
         objs.append(spec)
     ops = []
     holders = rng.randint(2, 4)
@@ -98,6 +98,8 @@ def make_object(spec):
     kind = spec["kind"]
     n = spec["n"]
     dt = {"dtype": np.dtype(spec["dtype"])} if spec["dtype"] else {}
+    if not spec.get("keep_missed", True):
+        dt["keep_missed"] = False
     names = spec.get("names")
     if kind in ("h1", "h1_gapped", "h1_adaptive", "h1_wide"):
         if kind == "h1_wide":
@@ -106,7 +108,7 @@ def make_object(spec):
             b = StaticBinning(np.array([[0.0, 1.0], [1.0, 2.0], [2.0, 3.5], [3.5, 4.0]]))
         elif kind == "h1_gapped":
             b = StaticBinning(np.array([[0.0, 1.0], [1.5, 2.0], [2.0, 3.0]]))
-            dt = {"dtype": np.dtype("float64")}
+            dt = dict(dt, dtype=np.dtype("float64"))
         else:
             b = FixedWidthBinning(bin_width=r.choice([1.0, 0.5]), bin_count=3, bin_times_min=0, adaptive=True)
         h = Histogram1D(b, **dt)
